@@ -1222,8 +1222,8 @@ pub fn depot_squeeze_network(rng: &mut Rng, tag: &str) -> Value {
 /// hostile ids: pairs of routes (and pairs of departures) whose (parent id, child id) pairs
 /// collide under concatenation with a separator - route `P` with segment `Q_0` versus route `P_Q`
 /// with segment `0` - plus ids that are prefixes of each other and ids shared across namespaces
-/// (a location named like a vehicle type). Every id stays unique within its own namespace and
-/// keeps the instance tag as prefix.
+/// (a location named like a vehicle type), and ids with multi-byte UTF-8 characters. Every id
+/// stays unique within its own namespace and keeps the instance tag as prefix.
 pub fn hostile_ids(rng: &mut Rng, x: &mut Value, tag: &str) -> bool {
     let sep = *rng.pick(&["_", "-", ".", ":", "/", "|", " ", ""]);
     let mut changed = false;
@@ -1305,6 +1305,46 @@ pub fn hostile_ids(rng: &mut Rng, x: &mut Value, tag: &str) -> bool {
             }
         }
         changed = true;
+    }
+    // ---- depot ids that start like the internal node names ("s_<depot>", "e_<depot>")
+    if rng.chance(1, 2) {
+        if let Some(ds) = x.get_mut("depots").and_then(|d| d.as_array_mut()) {
+            for d in ds.iter_mut() {
+                if rng.chance(1, 2) {
+                    if let Some(id) = d["id"].as_str().map(|s| s.to_string()) {
+                        d["id"] = json!(format!("{}{}", *rng.pick(&["s_", "e_", "s_s_", "e_s_", "depot_"]), id));
+                        changed = true;
+                    }
+                }
+            }
+        }
+    }
+    // ---- non-ASCII ids (multi-byte UTF-8: a request body may be cut inside a character)
+    if rng.chance(1, 2) {
+        let nl = x["locations"].as_array().map(|a| a.len()).unwrap_or(0);
+        if nl >= 1 {
+            let k = rng.usize(0, nl - 1);
+            if let Some(l) = x["locations"][k]["id"].as_str().map(|s| s.to_string()) {
+                let fancy = format!("{}{}", l, *rng.pick(&[" Zürich HB", " Genève-Aéroport", "·東京", " Łódź", "-Ñuñoa", " 🚆"]));
+                let text = serde_json::to_string(x).unwrap();
+                let renamed = text.replace(&format!("\"{}\"", l), &serde_json::to_string(&fancy).unwrap());
+                if let Ok(v) = serde_json::from_str::<Value>(&renamed) {
+                    *x = v;
+                    changed = true;
+                }
+            }
+        }
+        let nd = x["departures"].as_array().map(|a| a.len()).unwrap_or(0);
+        if nd >= 1 {
+            let k = rng.usize(0, nd - 1);
+            if let Some(segs) = x["departures"][k]["segments"].as_array_mut() {
+                for sg in segs.iter_mut() {
+                    if let Some(id) = sg["id"].as_str().map(|s| s.to_string()) {
+                        sg["id"] = json!(format!("{}→é", id));
+                    }
+                }
+            }
+        }
     }
     // ---- the same id in two namespaces: the first location is named like the first vehicle type
     if rng.chance(1, 2) {
